@@ -23,6 +23,8 @@ var VerifHooks struct {
 	Cancel func(s *Scheduler)
 	// Return is called after all stage goroutines have returned, before Schedule returns
 	Return func(s *Scheduler)
+	// Notify is called as the first statement of notifyStageChange
+	Notify func(s *Scheduler, stage *scheduler.Stage)
 }
 
 func verifNewScheduler(s *Scheduler) {
@@ -52,6 +54,12 @@ func verifCancel(s *Scheduler) {
 func verifReturn(s *Scheduler) {
 	if h := VerifHooks.Return; h != nil {
 		h(s)
+	}
+}
+
+func verifNotify(s *Scheduler, stage *scheduler.Stage) {
+	if h := VerifHooks.Notify; h != nil {
+		h(s, stage)
 	}
 }
 
